@@ -22,7 +22,9 @@ def run(ctx):
              "block store with block metas of some of the 6 past heights and a context cache with some of them, for every height from ctxH-7 to ctxH+4; each source "
              "(own header / cached context / block store; LastBlockId hash or ConsensusHash fallback) answers with its own hash family; spec: no answer for a height above the context height")
     ctx.trust("pc.Hash (SHA3-256) and encoding/json are not modelled: the seed bytes and the first 8 hash bytes are compared/consumed")
-    ctx.assume("BlocksPerSession and ClaimSubmissionWindow are the same at the session context and at the current context")
+    ctx.rule("c31 (round c): three parameter sets per case - (B,W) in the state at session start (a real context over a cache-wrapped branch of the store, "
+             "served for height S), live (B,W) when the claim is processed, live (B,W) when the proof is processed; equal in 55%, changed between claim and proof in 25%, "
+             "between session start and claim in 15%, both in 5% (each change moves W or B by +-1); the proof scan runs at a height above every candidate selecting height")
     n = 30000 if ctx.thorough else 2500
     ctx.stream("window", "c31", DRIVER, n=n)
     if ctx.thorough:
